@@ -23,7 +23,7 @@ import os
 import re
 import sys
 
-GEN_VERSION = 1
+GEN_VERSION = 2
 
 MASK = (1 << 64) - 1
 
@@ -238,6 +238,7 @@ class Prog:
         self.hist = {}              # var name -> operators in its backward slice
         self.cycle_hist = {}        # cycle id -> operators in the slice of the completing collection
         self.cyc_of = {}
+        self.fwd_sync = {}          # completed forward ref -> forward refs its completion depends on synchronously
 
     # ---- helpers
     def fresh(self):
@@ -606,7 +607,7 @@ class Prog:
                                      retry=min_retry(a.retry, b.retry)), 'join')))
                 if not isinstance(ta, str) and ta[0] == 't' and tb == ta[1] and b.bound == BND:
                     out.append((5, lambda a=a, b=b: self.op2(a, b, a.like(), 'anti_join')))
-                if a.t == b.t and b.bound == BND and a.retry == b.retry:
+                if a.t == b.t and b.bound == BND and a.retry == b.retry and (a.bound == BND or rng.chance(1, 6)):
                     out.append((3, lambda a=a, b=b: self.op2(a, b, a.like(), 'filter_not_in')))
         if self.mode == 'tick':
             for a in S:
@@ -933,8 +934,9 @@ class Prog:
                 self.has_loop = True
                 self.max_defer += 1
             else:
-                # forward reference: the completing collection must not depend synchronously on it
-                src = self.pick(lambda v: v.kind == 'S' and v.loc == tm.loc and c['id'] not in v.deps)
+                # forward reference: the completing collection must not depend synchronously on it,
+                # directly or through forward references that were completed earlier
+                src = self.pick(lambda v: v.kind == 'S' and v.loc == tm.loc and c['id'] not in self.sync_closure(v.deps))
                 if src is None:
                     src = self.src_iter(tm.loc)
                 uses_self = c['id'] in src.adeps
@@ -953,12 +955,22 @@ class Prog:
                     e += '.weaken_boundedness::<Unbounded>()'
                 if cur.order == TOTAL:
                     e += '.weaken_ordering::<NoOrder>()'
+                self.fwd_sync[c['id']] = self.sync_closure(src.deps)
                 self.cycle_hist[c['id']] = self.expr_hist(e) | {'forward_ref', 'forward_ref_complete', 'unique', 'map'}
                 self.lines.append('%s.complete(%s);' % (c['handle'], e))
                 self.ops.append('forward_ref_complete')
                 if uses_self:
                     self.has_loop = True
         self.open_cycles = []
+
+    def sync_closure(self, deps):
+        out, todo = set(), list(deps)
+        while todo:
+            d = todo.pop()
+            if d not in out:
+                out.add(d)
+                todo += list(self.fwd_sync.get(d, ()))
+        return out
 
     def expr_hist(self, expr):
         h = set()
